@@ -52,7 +52,7 @@ Definition E_OVERLAP : Z := 5.      (* overlapping regions! *)
 Definition E_FVSMALL : Z := 6.      (* Firmware Volume size too small *)
 Definition E_FVEOF : Z := 7.        (* EOF while reading the block map *)
 Definition E_POLARITY : Z := 8.     (* conflicting erase polarities *)
-Definition E_FVLEN : Z := 9.        (* invalid FV length (is greater than the data length) *)
+Definition E_FVLEN : Z := 9.        (* invalid FV length (greater than the data / smaller than the minimum) *)
 Definition E_FVLEN0 : Z := 10.      (* FV len 0; cannot progress *)
 Definition E_NOIFD : Z := 11.       (* no IFD found *)
 Definition E_NOME : Z := 12.        (* no ME region found *)
@@ -168,6 +168,7 @@ Definition parse_fv (data : bytes) (pol : Z) : outcome (bytes * Z * Z) :=
   let vpol := if Z.testbit attrs 11 then 255 else 0 in      (* Attributes & 0x800 *)
   do pol1 <- set_polarity pol vpol;
   if zlen data <? length then Err E_FVLEN else
+  if length <? fvh_min_size then Err E_FVLEN else   (* "invalid FV length (is smaller than the minimum FV size)" *)
   if bytes_eqb guid fvh_ffs2 || bytes_eqb guid fvh_ffs3 then Err E_UNMODELLED else
   Ok (sub 0 length data, vpol, pol1).
 
@@ -519,10 +520,12 @@ Definition is_bios (r : region) : bool := match r with RBios _ _ => true | _ => 
 Definition fr_ok (r : fregion) : bool :=
   (0 <=? fr_base r) && (fr_base r <? U16) && (0 <=? fr_limit r) && (fr_limit r <? U16).
 
-(* a region whose buffer has the size its flash region says, which is not empty *)
+(* a region whose buffer has the size its flash region says; only the ME region may be
+   empty (Limit = Base - 1: what tighten_me leaves of an entirely erased ME region) *)
 Definition region_ok (sl : list fregion) (r : region) : bool :=
   let fr := region_fr sl r in
-  fr_ok fr && (fr_base fr <=? fr_limit fr) &&
+  fr_ok fr &&
+  ((fr_base fr <=? fr_limit fr) || (is_me r && (fr_base fr =? fr_limit fr + 1))) &&
   (zlen (region_buf r) =? end_off fr - base_off fr) &&
   match r with
   | RBios els len => len =? zlen (concat (map elem_buf els))
@@ -551,16 +554,21 @@ Definition wf_tree (t : tree) : Prop :=
   chain (t_slots t) (t_regions t) ifd_desc_len = Some (t_size t) /\
   count is_me (t_regions t) <= 1 /\ count is_bios (t_regions t) <= 1.
 
-(* the descriptor sections are where the Go structs were read from, the region section does
-   not overlap the master section, and its blank first field is zero in the image *)
+(* the descriptor sections are where the Go structs were read from, and the region section
+   does not overlap the master section (Assemble writes the master section last, from the
+   values read at parse time: an overlapping master section would undo the change) *)
 Definition wf_desc (t : tree) : Prop :=
   0 <= t_dms t /\ t_dms t + ifd_dmap_size <= ifd_desc_len /\
   0 <= t_rs t /\ t_rs t + ifd_region_section_size <= ifd_desc_len /\
   0 <= t_ms t /\ t_ms t + ifd_master_size <= ifd_desc_len /\
   t_dmap t = sub (t_dms t) ifd_dmap_size (t_ifd t) /\
   t_master t = sub (t_ms t) ifd_master_size (t_ifd t) /\
-  sub (t_rs t) ifd_region_section_size (t_ifd t) =
-    sub (t_rs t) 2 (t_ifd t) ++ le_enc 2 (t_erase t) ++ enc_slots (t_slots t) /\
   (t_ms t + ifd_master_size <= t_rs t \/ t_rs t + ifd_region_section_size <= t_ms t).
 
+(* the slots and FlashBlockEraseSize are what the region section of the buffer says *)
+Definition desc_slots (t : tree) : Prop :=
+  sub (t_rs t) ifd_region_section_size (t_ifd t) =
+    sub (t_rs t) 2 (t_ifd t) ++ le_enc 2 (t_erase t) ++ enc_slots (t_slots t).
+
+(* the blank first field of the region section is zero in the image *)
 Definition blank_zero (t : tree) : Prop := sub (t_rs t) 2 (t_ifd t) = [0; 0].
